@@ -72,6 +72,25 @@ def rediscover_rule(ctx, r):
         else:
             r.bad("bound", "find_iter_at_in_context reports matches that start at (or after) the end of the reported range: "
                   "their offsets lie beyond the line being printed", fn=c, loc=cb[0].loc, construct="bound")
+        # ... and the match must lie inside the range altogether: in multi-line mode the haystack is cut off MAX_LOOK_AHEAD
+        # bytes after the range, where `$` / `\\z` / `\\b` match at the artificial end; such a match reaches beyond the bytes the
+        # printer holds for this event (slicing them panics)
+        def end_test(e):
+            return e.k == "bin" and e[1] in ("Gt", "Le", "Ge", "Lt") and mentions_call(e, "grep_matcher::Match::end") and \
+                any(y.k == "field" and y[3] == "range" for y in walk(e))
+        gt = cond_switches(c, end_test, ebc)
+        inside = False
+        for bb_, te_, fe_, e_ in gt:
+            keep = fe_ if e_[1] in ("Gt",) and mentions_call(e_[2], "grep_matcher::Match::end") else te_
+            drop_ = te_ if keep is fe_ else fe_
+            if cb[0].bb not in C.reach(c, [drop_[1]]):
+                inside = True
+        if inside:
+            r.ok("bound|end", "callback only for matches with end ≤ range.end", fn=c)
+        else:
+            r.bad("bound|end", "find_iter_at_in_context hands out matches that end beyond the reported range (found in the look-ahead "
+                  "tail of the truncated haystack): JSON output and -r then slice past the event's bytes and panic", fn=c,
+                  loc=cb[0].loc, construct="bound")
         if ge:
             s_ = Sccp(c).run([(ge[0][1][1], {})])
             vals = {x for v in s_.ret_values.values() for x in value_set(v)}
@@ -125,7 +144,7 @@ def rediscover_rule(ctx, r):
 
 def run(ctx):
     facts = ctx.facts
-    with ctx.rule("C09.REDISCOVER", "match re-discovery is confined to the reported range", floor=7, kind="GUARD/FLOW") as r:
+    with ctx.rule("C09.REDISCOVER", "match re-discovery is confined to the reported range", floor=8, kind="GUARD/FLOW") as r:
         rediscover_rule(ctx, r)
     with ctx.rule("C09.FRAME", "JSON framing: begin dominates, at most once, end only after begin", floor=6, kind="DOM/GUARD") as r:
         WB = JS + "::write_begin_message"
